@@ -41,6 +41,7 @@ type Prog struct {
 	Flattened   []string
 	anchors     map[string]bool
 	deadHelpers map[*ssa.Function]bool
+	sentinels   map[*ssa.Global]bool
 }
 
 // Load type-checks dir (patterns default to ./...) without test files and
